@@ -192,21 +192,26 @@ def seq_case(name, rng: random.Random, length=12, obs_every=True, big=0.08, allo
     return "\n".join(lines) + "\n"
 
 
-def bulk_case(name, rng: random.Random):
-    """Many keys at once: histories whose ranges span hundreds of keys, so that anything done per
-    batch, per page or per chunk of keys is exercised past its first unit."""
+def bulk_case(name, rng: random.Random, large=False):
+    """Many keys at once: histories whose ranges span hundreds of keys (large: one to three thousand,
+    with long keys, so that a single range removal is logged as a record of 64-200 KiB), so that
+    anything done per batch, per page, per chunk of keys or per record size is exercised past its
+    first unit."""
     kt = rng.choice(["u32", "i64", "bytes", "string"])
-    nk = rng.choice([129, 130, 200, 257, 300, 385, 513])
-    vals = rng.sample(range(-400, 400) if kt == "i64" else range(0, 800), nk)
+    nk = rng.choice([1100, 1700, 2600]) if large else rng.choice([129, 130, 200, 257, 300, 385, 513])
+    span = max(400, nk)
+    vals = rng.sample(range(-span, span) if kt == "i64" else range(0, 2 * span), nk)
     if kt == "u32":
         keys = [struct.pack("<I", v * 257 % 100003) for v in vals]
     elif kt == "i64":
         keys = [struct.pack("<q", v * 1000003) for v in vals]
+    elif large:
+        keys = [b"key-%05d-" % v + b"x" * 54 for v in vals]
     else:
         keys = [b"k%03d" % v for v in vals]
     keys = list(dict.fromkeys(keys))
     contents = [hexs(bytes([65 + i]) * (i + 1)) for i in range(4)]
-    n = rng.choice([7, 100, 1000])
+    n = rng.choice([100, 1000]) if large else rng.choice([7, 100, 1000])
     lines = [f"case {name}", f"cfg kt={kt} n={n} sync=0", "open"]
     for k in keys:
         lines.append(f"put {hexs(k)} {rng.choice(contents)}")
